@@ -103,7 +103,7 @@ func (Prop) Gen(r *core.Rand, tier string) interface{} {
 		}
 		c.Tasks = append(c.Tasks, prog)
 	}
-	if c.Prepare && r.Chance(40) {
+	if c.Prepare && r.Chance(70) {
 		// prepared-statement scenario: the first preparation of a statement text
 		// happens inside some tasks' transactions while other tasks run the same
 		// text outside any transaction
@@ -128,7 +128,7 @@ func (Prop) Gen(r *core.Rand, tier string) interface{} {
 			c.Tasks[t] = append([]Op{{Kind: "note", X: t}, {Kind: "note_find"}}, c.Tasks[t]...)
 		}
 	}
-	if r.Chance(12) {
+	if r.Chance(20) {
 		// club scenario: some tasks run nested preloads over User while others make first
 		// use of a model that has many Users
 		for t := range c.Tasks {
